@@ -58,7 +58,17 @@ impl Distribution for Gamma {
     /// Uses the algorithm from Marsaglia and Tsang 2000. Applies the squeeze
     /// method and has nearly constant average time for `alpha >= 1`.
     fn sample(&self) -> f64 {
-        let d = self.alpha - 1. / 3.;
+        // Marsaglia-Tsang requires shape >= 1. Smaller shapes are boosted (section 6 of the paper):
+        // if G ~ Gamma(alpha + 1) and U ~ Uniform(0, 1) then G * U^(1 / alpha) ~ Gamma(alpha).
+        let (alpha, boost) = if self.alpha < 1. {
+            (
+                self.alpha + 1.,
+                self.uniform_gen.sample().powf(1. / self.alpha),
+            )
+        } else {
+            (self.alpha, 1.)
+        };
+        let d = alpha - 1. / 3.;
         loop {
             #[cfg(feature = "verif-hooks")]
             crate::verif_hooks::tick(crate::verif_hooks::Site::GammaOuter);
@@ -75,12 +85,12 @@ impl Distribution for Gamma {
             if u < 1. - 0.0331 * x.powi(4) {
                 #[cfg(feature = "verif-hooks")]
                 crate::verif_hooks::tick(crate::verif_hooks::Site::GammaSqueeze);
-                return d * v / self.beta;
+                return boost * d * v / self.beta;
             }
             if u.ln() < 0.5 * x.powi(2) + d * (1. - v + v.ln()) {
                 #[cfg(feature = "verif-hooks")]
                 crate::verif_hooks::tick(crate::verif_hooks::Site::GammaLog);
-                return d * v / self.beta;
+                return boost * d * v / self.beta;
             }
         }
     }
